@@ -127,6 +127,17 @@ Section Theorems.
 
   (** ** C04 *)
 
+  Lemma call_func_log_aux c p :
+    snd (call_func c p) = if call_binds (sigs c) p then [EvCall c p] else [].
+  Proof.
+    unfold Dispatch.call_func. destruct (call_binds (sigs c) p); [|reflexivity].
+    destruct (body c p); try reflexivity. destruct (String.eqb cls "TypeError"); reflexivity.
+  Qed.
+
+  Lemma target_custom_once_aux reg d s p :
+    snd (run_target reg (Some d) s p) = [EvCall d (dispatch_args s p)].
+  Proof. cbn. unfold call_dispatcher. destruct (body d (dispatch_args s p)); reflexivity. Qed.
+
   Theorem notification_inline srvf srv dm e m s :
     e = VDict m -> is_notification_entry e = true -> method_of e = Some s -> sv_pool srv = false ->
     answer_entry srvf srv dm e = (None, snd (run_target (sv_reg srv) dm s (params_of e))).
@@ -156,6 +167,50 @@ Section Theorems.
     destruct V as (E & _ & Hm' & _ & -> & _). inversion E; subst m'. clear E.
     assert (s' = s) by congruence. subst s'.
     unfold Dispatch.single_dispatch, single_dispatch_with. rewrite is_notification_no_id, Hno, Hp. reflexivity.
+  Qed.
+
+  (** a notification arriving alone: the body of the reply is empty *)
+  Theorem notification_alone_empty_body srvf srv dm e :
+    is_notification_entry e = true ->
+    exists log, marshaled_dispatch srvf srv dm (PValue e) = Ok (REmpty, log).
+  Proof.
+    intros Hn. unfold Dispatch.marshaled_dispatch, Dispatch.unmarshaled_dispatch. cbn [loads_m].
+    pose proof (proj2 (answer_entry_none_iff body sigs srvf srv dm e) Hn) as A.
+    assert (Hd : exists m, e = VDict m /\ m <> []).
+    { unfold is_notification_entry in Hn. apply andb_true_iff in Hn as [Hw _].
+      destruct e; try discriminate. exists m. split; [reflexivity|]. intros ->. discriminate. }
+    destruct Hd as (m & -> & Hm).
+    assert (Ht : truthy (VDict m) = true) by (destruct m; [congruence|reflexivity]).
+    rewrite Ht. cbn [negb].
+    destruct (answer_entry srvf srv dm (VDict m)) as [[o|] l]; cbn in A; [discriminate|]. eauto.
+  Qed.
+
+  (** one execution of the target enters at most two callables, each once: nothing; the function;
+      the dispatch function; or a declining instance-level _dispatch followed by the resolved function *)
+  Theorem target_log_shape reg dm s p :
+    let log := snd (run_target reg dm s p) in
+    log = [] \/ (exists c a, log = [EvCall c a])
+    \/ (exists d c, log = [EvCall d (dispatch_args s p); EvCall c p]).
+  Proof.
+    cbn zeta. destruct dm as [d|].
+    { right; left. rewrite target_custom_once_aux. eauto. }
+    cbn [Dispatch.run_target]. unfold Dispatch.dispatch.
+    destruct (lookup s (r_funcs reg)) as [c|].
+    { rewrite call_func_log_aux. destruct (call_binds (sigs c) p); eauto. }
+    destruct (r_instance reg) as [inst|]; [|left; reflexivity].
+    assert (R : snd (dispatch_resolved body sigs inst s p) = []
+                \/ exists c, snd (dispatch_resolved body sigs inst s p) = [EvCall c p]).
+    { unfold dispatch_resolved, unknown_method.
+      destruct (resolve_segs _ _) as [[c| |]|]; try (left; reflexivity).
+      rewrite call_func_log_aux. destruct (call_binds (sigs c) p); eauto. }
+    destruct (i_dispatch inst) as [d|].
+    2:{ destruct R as [R|[c R]]; rewrite R; eauto. }
+    unfold call_dispatcher. destruct (body d (dispatch_args s p)) as [v|cls m|m].
+    - right; left. cbn [snd]. eauto.
+    - destruct (String.eqb cls "AttributeError"); [|right; left; cbn [snd]; eauto].
+      destruct (dispatch_resolved body sigs inst s p) as [r ev'] eqn:E. cbn [snd] in *.
+      destruct R as [->|[c ->]]; [right; left|right; right]; cbn [app]; eauto.
+    - right; left. cbn. eauto.
   Qed.
 
   (** executing the enqueued task once is one execution of the dispatch target *)
